@@ -92,7 +92,7 @@ def enum_positions(ctx):
                 rng = ctx.rng("pos", idx)
                 others = "".join(rng.choice(ALPHA) for _ in range(8))
                 yield {"cs": others[:pos] + ch + others[pos + 1:], "pos": pos, "new": rng.choice(ALPHA), "tc": rng.randint(1, 4), "cat": rng.randint(0, 7),
-                       "df": rng.choice([17, 18]), "ctx_addr": rng.getrandbits(24), "ctx_head": rng.getrandbits(27), "hc": rng.choice("ULM")}
+                       "df": rng.choice([17, 18]), "ctx_addr": gen.addr24(rng), "ctx_head": rng.getrandbits(27), "hc": rng.choice("ULM")}
 
 
 def enum_corpus(ctx):
@@ -138,8 +138,8 @@ def chk_threads(case, note):
     for _ in range(12):
         cs = "".join(rng.choice(ALPHA) for _ in range(8))
         me = (rng.randint(1, 4) << 51) | (rng.getrandbits(3) << 48) | pack(cs)
-        m = frames.tohex(frames.df17(rng.getrandbits(24), me), 112)
-        m2 = frames.tohex(frames.commb(20, rng.getrandbits(24), (0x20 << 48) | pack(cs), rng.getrandbits(27)), 112)
+        m = frames.tohex(frames.df17(gen.addr24(rng), me), 112)
+        m2 = frames.tohex(frames.commb(20, gen.addr24(rng), (0x20 << 48) | pack(cs), rng.getrandbits(27)), 112)
         jobs.append(("adsb.callsign", pms.adsb.callsign, (m,), ("ok", cs.replace(" ", "_"))))
         jobs.append(("commb.cs20", pms.commb.cs20, (m2,), ("ok", cs.replace(" ", "_"))))
     p = variants.hammer(jobs, nthreads=4, rounds=150)
@@ -170,10 +170,10 @@ def first_jobs(rng):
     for _ in range(30):
         cs = "".join(rng.choice(ALPHA) for _ in range(8))
         tc, cat = rng.randint(1, 4), rng.getrandbits(3)
-        m = frames.tohex(frames.df17(rng.getrandbits(24), (tc << 51) | (cat << 48) | pack(cs), ca=rng.getrandbits(3), df=rng.choice([17, 18])), 112, rng.choice("UL"))
+        m = frames.tohex(frames.df17(gen.addr24(rng), (tc << 51) | (cat << 48) | pack(cs), ca=rng.getrandbits(3), df=rng.choice([17, 18])), 112, rng.choice("UL"))
         jobs.append(("adsb.callsign", (m,), ("ok", cs.replace(" ", "_"))))
         jobs.append(("adsb.category", (m,), ("ok", cat)))
-        m2 = frames.tohex(frames.commb(rng.choice([20, 21]), rng.getrandbits(24), (0x20 << 48) | pack(cs), rng.getrandbits(27)), 112, "U")
+        m2 = frames.tohex(frames.commb(rng.choice([20, 21]), gen.addr24(rng), (0x20 << 48) | pack(cs), rng.getrandbits(27)), 112, "U")
         jobs.append(("commb.cs20", (m2,), ("ok", cs.replace(" ", "_"))))
     return jobs
 
